@@ -19,7 +19,7 @@ func init() {
 			"(parallel-protocol) each worker is counted with wg.Add before it is spawned, registers wg.Done BEFORE its recover handler (so the panic is recorded before the waiter is released), records the panic in the task, gets a pointer to its own task and the caller's context; wg.Wait lies between the spawns and every return; " +
 			"(unknown-tool) an unknown tool name is an error unless a handler is configured, in which case the handler task is used; " +
 			"(siblings) Invoke and Stream perform the same steps with their respective runner.",
-		decided:    []string{"index-preserved (incl. converter totality)", "loopvar (captures and escaping addresses)", "err-before-use", "parallel-protocol", "unknown-tool", "siblings"},
+		decided:    []string{"index-preserved (incl. converter totality)", "loopvar (captures and escaping addresses)", "err-before-use", "parallel-protocol", "unknown-tool", "siblings", "eof-identity", "inline-after-spawn", "visits-all"},
 		notDecided: []string{"run-time completion-order independence beyond the structural facts", "behaviour of tools", "position-wise concatenation of the streamed sparse lists (C14 covers concatMessageArray structurally)"},
 		run:        runC17,
 	})
